@@ -112,6 +112,7 @@ type State struct {
 	mergeScalars  bool  // option merge-scalar-branches: pure scalar triangles/diamonds become ite instead of two paths
 	rootAllArgs   []Value // closure roots: captured values followed by parameters
 	fullLog       []LogEntry // inside old(): the whole current log (s.log is truncated to the old length)
+	cutLoopAt     int // log length when the first cut loop was entered (-1: none)
 	storeGuard    *Term // set while a defaulting triangle is executed speculatively: stores become guarded
 	ghostlog      map[string]bool
 	ghostlogContract map[string]bool // recorded callees whose own contract describes the results (ghostlog f+contract)
